@@ -131,6 +131,10 @@ fn open_auto_path(bytes: &[u8], ext: &str) -> String {
 
 /// `x<hex>` | `r<len>.<seed>`
 fn bytes_of_spec(s: &str) -> Vec<u8> {
+    if s.contains('+') {
+        // `<spec>+<spec>`: concatenation (e.g. random cipher text with a chosen tail)
+        return s.split('+').flat_map(bytes_of_spec).collect();
+    }
     if let Some(h) = s.strip_prefix('x') {
         unhex(if h.is_empty() { "-" } else { h })
     } else if let Some(r) = s.strip_prefix('r') {
@@ -297,6 +301,41 @@ fn run_ooxml(text: &str, drv: &mut Driver, extras: bool) -> Outcome {
             damaged = true;
         }
     }
+    // optional `trail=<what>`: bytes behind the last sector (left-over of a longer earlier version of the file,
+    // a transport's padding …; compound-file readers never look there). They spell what zip readers probe for:
+    // `eocd` an empty end-of-central-directory record exactly 22 bytes before the end, `eocdc<k>` one with a
+    // k-byte comment, `lfh` a local-file-header signature and junk, `xlsx<seed>` a whole plain workbook
+    // (a polyglot), or a byte spec. The file still is an encrypted compound file.
+    for d in f.iter().skip(3) {
+        if let Some(t) = d.strip_prefix("trail=") {
+            let tail: Vec<u8> = if t == "eocd" {
+                let mut v = b"PK\x05\x06".to_vec();
+                v.resize(22, 0);
+                v
+            } else if let Some(k) = t.strip_prefix("eocdc") {
+                let k: usize = k.parse().expect("comment length");
+                let mut v = b"PK\x05\x06".to_vec();
+                v.resize(20, 0);
+                v.extend_from_slice(&(k as u16).to_le_bytes());
+                v.extend(Rng::new(k as u64).bytes(k));
+                v
+            } else if t == "lfh" {
+                let mut v = b"PK\x03\x04\x14\x00\x00\x00\x08\x00".to_vec();
+                v.extend(Rng::new(ls).bytes(60));
+                v
+            } else if let Some(sd) = t.strip_prefix("xlsx") {
+                gen_plain("xlsx", sd.parse().expect("seed"))
+            } else {
+                bytes_of_spec(t)
+            };
+            bytes.extend(tail);
+            let label = t.trim_end_matches(|c: char| c.is_ascii_digit());
+            out.count(format!("ooxml:trailing-bytes:{}", if ["eocd", "eocdc", "lfh", "xlsx"].contains(&label) { label } else { "junk+eocd" }));
+        }
+    }
+    if bytes.len() >= 22 && &bytes[bytes.len() - 22..bytes.len() - 18] == b"PK\x05\x06" {
+        out.count("ooxml:eocd-signature-22-bytes-before-end");
+    }
     let enc = streams.iter().find(|(n, _)| n == ENC);
     let encrypted = enc.is_some() && !damaged;
     if damaged {
@@ -430,7 +469,30 @@ fn gen_ooxml(rng: &mut Rng, thorough: bool) -> String {
     } else {
         String::new()
     };
+    let damage = if damage.is_empty() && rng.chance(1, 8) {
+        match rng.below(5) {
+            0 => ";trail=eocd".to_string(),
+            1 => format!(";trail=eocdc{}", rng.range(1, 300)),
+            2 => ";trail=lfh".to_string(),
+            3 => format!(";trail=xlsx{}", rng.below(1 << 30)),
+            _ => format!(";trail=r{}.{}+x504b0506{}", rng.below(40), rng.below(1 << 30), "00".repeat(18)),
+        }
+    } else {
+        damage
+    };
     format!("ooxml;{};{}{}", gen_copts(rng, true), st, damage)
+}
+
+/// the cipher text itself ends the file (sequential allocation, directory first, package last and a whole
+/// number of sectors long) and its last 22 bytes spell an empty zip end-of-central-directory record
+fn gen_ooxml_ciphertext_tail(rng: &mut Rng) -> String {
+    let mut o = CfbOpts::default();
+    o.sector_size = if rng.chance(1, 2) { 512 } else { 4096 };
+    o.dir_first = true;
+    let n = o.sector_size * rng.range(8, 12) as usize; // ≥ 4096: regular sectors
+    let pkg = format!("{}:r{}.{}+x504b0506{}", hexs(ENC), n - 22, rng.below(1 << 30), "00".repeat(18));
+    let info = format!("{}:r248.{}", hexs("EncryptionInfo"), rng.below(1 << 30));
+    format!("ooxml;{};{}/{}", copts_text(&o, rng.next() >> 16), info, pkg)
 }
 
 /// an encrypted package of 1.2 – 3 MiB (as a real workbook of some size gives), allocation tables and directory
@@ -666,9 +728,11 @@ fn judge_xls(out: &mut Outcome, bytes: &[u8], wb: &[u8], drv: &mut Driver, expec
     out.count(format!("xls:model={}", ms.split(':').next().unwrap()));
     out.count(format!("xls:impl={it_}"));
     judge_xls_file(out, bytes, &it_, drv, "xls");
-    judge_positions(out, "xls", bytes, &it_, expect_pw == Some(true), &ms, &open_xls_at);
+    // (the embedded-object-first container is one recorded finding, reported once below: here only consistency)
+    let enc_here = expect_pw == Some(true) && !cls.starts_with("embedded-object-first");
+    judge_positions(out, "xls", bytes, &it_, enc_here, &ms, &open_xls_at);
     judge_positions_auto(out, bytes, &ms);
-    judge_xls_options(out, bytes, &it_, expect_pw == Some(true), drv, "xls");
+    judge_xls_options(out, bytes, &it_, enc_here, drv, "xls");
     if ms != mr {
         out.fail("model_vs_spec", "xls-stream-vs-records", &it_, &reply, "");
     }
@@ -730,7 +794,28 @@ fn run_xls(text: &str, drv: &mut Driver, extras: bool) -> Outcome {
     if scr && cls.is_some() {
         scramble(&mut wb, ls ^ 0x5555);
     }
-    let bytes = write_cfb(&[(book.stream_name.clone(), wb.clone())], &opts, &mut rng);
+    // optional field `emb=1|2`: the container also holds an embedded Excel object (storage `MBD…`, written as an
+    // empty entry: calamine never reads the tree) with its own PLAIN `Workbook` stream, listed in the directory
+    // after (1) or before (2) the top-level stream. The workbook is the top-level one.
+    let emb = f.iter().skip(6).find_map(|x| x.strip_prefix("emb=")).and_then(|x| x.parse::<u8>().ok()).unwrap_or(0);
+    let bytes = if emb == 0 {
+        write_cfb(&[(book.stream_name.clone(), wb.clone())], &opts, &mut rng)
+    } else {
+        let mut inner = gen_book(7);
+        inner.stream_name = book.stream_name.clone();
+        let plain = inner.workbook_stream(&mut Rng::new(ls ^ 0x77));
+        let top = (book.stream_name.clone(), wb.clone());
+        let obj = ("MBD0018D3C0".to_string(), vec![]);
+        let embedded = (book.stream_name.clone(), plain);
+        let mut o = opts.clone();
+        o.dir_shuffle = false; // the directory order is the point
+        out.count(format!("xls:embedded-object-with-plain-workbook:{}", if emb == 1 { "after-top-level" } else { "before-top-level" }));
+        if emb == 1 {
+            write_cfb(&[top, obj, embedded], &o, &mut rng)
+        } else {
+            write_cfb(&[obj, embedded, top], &o, &mut rng)
+        }
+    };
     let pos = if head.iter().any(|r| r.0 == 0x2F) { if head[0].0 == 0x2F { "first" } else { "head" } } else { "tail" };
     let c = cls.clone().map(|c| format!("{c}:{pos}")).unwrap_or("none".into());
     out.count(format!("xls:filepass={c}{}", if scr && cls.is_some() { ":scrambled" } else { "" }));
@@ -738,7 +823,12 @@ fn run_xls(text: &str, drv: &mut Driver, extras: bool) -> Outcome {
     if opts.name_garbage {
         out.count("xls:stale-name-padding");
     }
-    judge_xls(&mut out, &bytes, &wb, drv, Some(cls.is_some()), &cls.unwrap_or("none".into()), extras);
+    let cls_s = match (emb, &cls) {
+        (2, Some(c)) => format!("embedded-object-first:{c}"),
+        (_, Some(c)) => c.clone(),
+        (_, None) => "none".to_string(),
+    };
+    judge_xls(&mut out, &bytes, &wb, drv, Some(cls.is_some()), &cls_s, extras);
     out.nontrivial = true;
     out
 }
@@ -799,6 +889,36 @@ fn bof_payload() -> Vec<u8> {
     d
 }
 
+/// protection that is NOT encryption ([MS-XLS] PROTECTION block, file sharing, revision protection): the
+/// workbook stays readable, none of this may be reported as password protected
+fn protection(rng: &mut Rng) -> Vec<(u16, Vec<u8>)> {
+    let verifier = |rng: &mut Rng| (rng.range(1, 0xFFFF) as u16).to_le_bytes().to_vec();
+    let mut v = vec![];
+    if rng.chance(1, 3) {
+        // FileSharing: fReadOnlyRec, wResPassNum (write-reservation password verifier), iNoResPass, user name
+        let mut d = vec![rng.below(2) as u8, 0];
+        d.extend(verifier(rng));
+        d.extend_from_slice(&[4, 0, 0, b'u', b's', b'e', b'r']);
+        v.push((0x005B, d));
+    }
+    if rng.chance(2, 3) {
+        v.push((0x0019, vec![rng.below(2) as u8, 0])); // WinProtect
+    }
+    v.push((0x0012, vec![if rng.chance(4, 5) { 1 } else { 0 }, 0])); // Protect: fLock
+    if rng.chance(5, 6) {
+        v.push((0x0013, if rng.chance(5, 6) { verifier(rng) } else { vec![0, 0] })); // Password: verifier
+    }
+    if rng.chance(1, 2) {
+        v.push((0x01AF, vec![rng.below(2) as u8, 0])); // Prot4Rev
+        v.push((0x01BC, verifier(rng))); // Prot4RevPass
+    }
+    if rng.chance(1, 3) {
+        v.push((0x0063, vec![1, 0])); // ObjProtect
+        v.push((0x00DD, vec![1, 0])); // ScenProtect
+    }
+    v
+}
+
 fn benign(rng: &mut Rng) -> (u16, Vec<u8>) {
     match rng.below(9) {
         0 => (0x00E1, vec![0xB0, 0x04]),                                   // InterfaceHdr
@@ -855,6 +975,10 @@ fn gen_xls(rng: &mut Rng) -> String {
     for _ in 0..rng.below(3) {
         tail.push(benign(rng));
     }
+    if rng.chance(1, 3) {
+        let blk = protection(rng);
+        if rng.chance(1, 2) { head.extend(blk) } else { tail.extend(blk) }
+    }
     if encrypted {
         let fp = gen_filepass(rng);
         match rng.below(10) {
@@ -871,7 +995,10 @@ fn gen_xls(rng: &mut Rng) -> String {
     }
     let bseed = if rng.chance(1, 4) { 0 } else { rng.below(1 << 30) + 1 };
     let name = if rng.chance(1, 6) { "Book" } else { "Workbook" };
-    format!("xls;{};b{};{};{};scr={};name={};sheetfp={}", gen_copts(rng, false), bseed, recs_text(&head), recs_text(&tail), rng.chance(1, 2) as u8, name, (!encrypted && rng.chance(1, 3)) as u8)
+    // an embedded object listed after the top-level stream in one case out of eight; listed before it (the reader
+    // then opens the object: recorded finding) only from the corpus
+    let emb = if rng.chance(1, 8) { ";emb=1" } else { "" };
+    format!("xls;{};b{};{};{};scr={};name={};sheetfp={}{}", gen_copts(rng, false), bseed, recs_text(&head), recs_text(&tail), rng.chance(1, 2) as u8, name, (!encrypted && rng.chance(1, 3)) as u8, emb)
 }
 
 fn gen_xlsraw(rng: &mut Rng) -> String {
@@ -1398,6 +1525,21 @@ fn gen_plain(fmt: &str, seed: u64) -> Vec<u8> {
                 }
                 book.sheets.push(sh);
             }
+            if rng.chance(1, 2) {
+                book.workbook_extra = format!(
+                    "<workbookProtection workbookAlgorithmName=\"SHA-512\" workbookHashValue=\"{}\" workbookSaltValue=\"c2FsdA==\" workbookSpinCount=\"100000\" lockStructure=\"1\" workbookPassword=\"{:04X}\"/>",
+                    "QUJD".repeat(8), rng.range(1, 0xFFFF)
+                );
+                for sh in book.sheets.iter_mut() {
+                    sh.extra_after_sheet_data = format!("<sheetProtection algorithmName=\"SHA-512\" hashValue=\"{}\" saltValue=\"c2FsdA==\" spinCount=\"100000\" password=\"{:04X}\" sheet=\"1\" objects=\"1\" scenarios=\"1\"/>", "QUJD".repeat(8), rng.range(1, 0xFFFF));
+                }
+            }
+            if rng.chance(1, 3) {
+                // an embedded OLE object that itself is an ENCRYPTED package: the compound-file magic and an
+                // `EncryptedPackage` entry inside the zip do not make the workbook encrypted
+                let inner = write_cfb(&[(ENC.to_string(), rng.bytes(300)), ("EncryptionInfo".to_string(), rng.bytes(100))], &CfbOpts::default(), &mut rng);
+                book.extra_parts.push(("xl/embeddings/oleObject1.bin".to_string(), inner));
+            }
             let l = xlsxw::Layout::random(&mut rng);
             book.build(&l).bytes
         }
@@ -1432,6 +1574,19 @@ fn gen_plain(fmt: &str, seed: u64) -> Vec<u8> {
             for _ in 0..rng.below(3) {
                 book.globals_head.push(benign(&mut rng));
             }
+            if rng.chance(1, 2) {
+                let blk = protection(&mut rng);
+                if rng.chance(1, 2) { book.globals_head.extend(blk) } else { book.globals_tail.extend(blk) }
+            }
+            if rng.chance(1, 3) {
+                // sheet protection: Protect / ScenProtect / ObjProtect / Password in the sheet substream
+                for sh in book.sheets.iter_mut() {
+                    let v = (rng.range(1, 0xFFFF) as u16).to_le_bytes().to_vec();
+                    for (k, r) in [(0x0012u16, vec![1u8, 0]), (0x00DD, vec![1, 0]), (0x0063, vec![1, 0]), (0x0013, v)].into_iter().enumerate() {
+                        sh.cells.insert(k, xlsw::XlsCell::raw(r.0, r.1));
+                    }
+                }
+            }
             book.to_bytes(&mut rng)
         }
         "ods" => {
@@ -1454,7 +1609,16 @@ fn gen_plain(fmt: &str, seed: u64) -> Vec<u8> {
             }
             let mut b = odsw::OdsBook::new(sheets);
             b.stored = rng.chance(1, 2);
-            b.to_bytes()
+            if rng.chance(1, 2) {
+                // sheet and structure protection (password hashes): not encryption
+                let content = b
+                    .content_xml()
+                    .replace("<table:table table:name=", "<table:table table:protected=\"true\" table:protection-key=\"nU4eI71bcnBGqeO0t9tXvY1u5oQ=\" table:protection-key-digest-algorithm=\"http://www.w3.org/2000/09/xmldsig#sha1\" table:name=")
+                    .replace("<office:spreadsheet>", "<office:spreadsheet table:structure-protected=\"true\" table:protection-key=\"nU4eI71bcnBGqeO0t9tXvY1u5oQ=\">");
+                odsw::zip_parts(&b.manifest_xml(), &content, b.stored)
+            } else {
+                b.to_bytes()
+            }
         }
         x => panic!("format {x}"),
     }
@@ -1556,6 +1720,19 @@ fn corpus() -> Vec<String> {
         format!("ods;1;{};0;-*2499|E6d616e69666573743a616c676f726974686d;cut=-;zip=0;enc=1;names=hex", hexs("manifest:manifest")),
         format!("ods;1;{};1;-*600|T,E|-*599;cut=-;zip=2;enc=1;names=hex", hexs("manifest:manifest")),
         format!("ods;1;{};0;-*2499|E;cut=-;zip=1;enc=0;names=hex", hexs("manifest:manifest")),
+        // seeded change C20-m14: zip signatures where zip readers probe — an empty end-of-central-directory record
+        // exactly 22 bytes before the end, as trailing bytes and as the tail of the cipher text itself
+        format!("ooxml;{PLAIN};{enc}:r100.1/{info}:r248.2;trail=eocd"),
+        format!("ooxml;{PLAIN},df=1;{info}:r248.2/{enc}:r4074.1+x504b0506{}", "00".repeat(18)),
+        format!("ooxml;{PLAIN4};{enc}:r5000.1/{info}:r248.2;trail=xlsx5"),
+        // seeded change C20-m15: protection that is not encryption (Protect fLock=1 + Password verifier, WinProtect,
+        // FileSharing with a write-reservation verifier) in a readable workbook
+        format!("xls;{PLAIN};b7;25:0100,18:0100,19:cdab;_;scr=0"),
+        format!("xls;{PLAIN};b7;91:0100cdab04000075736572;18:0100,19:cdab,431:0100,444:3412;scr=0"),
+        // seeded change C20-m16: an encrypted workbook holding an embedded Excel object with its own plain `Workbook`
+        // stream, listed after / before the top-level stream in the directory
+        format!("xls;{PLAIN};b7;47:00001234abcd;_;scr=0;name=Workbook;sheetfp=0;emb=1"),
+        format!("xls;{PLAIN};b7;47:00001234abcd;_;scr=0;name=Workbook;sheetfp=0;emb=2"),
         // compound files that are not encrypted packages
         format!("ooxml;{PLAIN};{}:r100.1/{info}:r248.2", hexs("encryptedpackage")),
         format!("ooxml;{PLAIN};_"),
@@ -1594,9 +1771,9 @@ fn main() {
         "C20",
         "encrypted OOXML packages (compound files from cfbw: v3/v4, shuffled/fragmented, free sectors, DIFAT, stale characters behind the NUL of directory names, EncryptedPackage of \
          0..70000 bytes in the mini stream or in regular sectors, EncryptionInfo standard/agile/extensible headers + arbitrary bytes, \
-         DataSpaces streams; near-miss names as negatives; one case in 500 with a 1.2-3 MiB package and the allocation tables/directory at the start, end or middle of the file, and two corpus containers of 17-20 MiB with the tables at the end (no Lean model above 4 MiB); one in ten truncated or with one byte overwritten: impl vs model only) opened with Xlsx::new and Xlsb::new; BIFF8 workbooks from xlsw with a \
+         DataSpaces streams; near-miss names as negatives; one in eight followed by trailing bytes that spell zip signatures (EOCD 22 bytes before the end, with comment, local header, a whole plain xlsx) and one in 100 whose cipher text ends the file with an EOCD record; one case in 500 with a 1.2-3 MiB package and the allocation tables/directory at the start, end or middle of the file, and two corpus containers of 17-20 MiB with the tables at the end (no Lean model above 4 MiB); one in ten truncated or with one byte overwritten: impl vs model only) opened with Xlsx::new and Xlsb::new; BIFF8 workbooks from xlsw with a \
          FILEPASS record (wEncryptionType 0 / 1 RC4 / 1 CryptoAPI / other / truncated; every workbook also opened through Xls::new_with_options with forced code pages 1252/1200/932/unknown and header rows: same verdict) first after BOF, after other globals records, \
-         or last before EOF, stream named Workbook or Book, rest of the stream optionally replaced by noise, a FILEPASS-typed record inside a sheet substream as a negative, plus globals streams laid out by the Lean encoder; \
+         or last before EOF, stream named Workbook or Book, rest of the stream optionally replaced by noise, a FILEPASS-typed record inside a sheet substream as a negative, protection records that are not encryption (Protect+Password, WinProtect, FileSharing, Prot4Rev, ObjProtect, ScenProtect; workbookProtection/sheetProtection in xlsx, table protection in ods, an encrypted package embedded as an OLE object in a plain xlsx), an embedded Excel object with its own plain Workbook stream next to the encrypted top-level one, plus globals streams laid out by the Lean encoder; \
          ods packages whose manifest (0..40 entries, encryption-data in any subset of them, other children, comments, white space, \
          unusual root names, optionally truncated; one case in 500 with 600-3000 entries of random names, stored or deflated, the encrypted entry first/middle/last) is serialized from a logical description; conversely random unencrypted workbooks \
          of the four formats from the shared writers and every fixture of /repo/tests. every file is opened through readers handed over at offset 0, 4, 8, mid-file and EOF (all four readers and open_workbook_auto_from_rs): the result class must not depend on it. impl = the reader's constructor result class, \
@@ -1618,6 +1795,10 @@ fn main() {
             let mut r = rng.fork();
             if i % 500 == 375 {
                 cases.push(gen_ods_big(&mut r));
+                continue;
+            }
+            if i % 100 == 55 {
+                cases.push(gen_ooxml_ciphertext_tail(&mut r));
                 continue;
             }
             if i % 500 == 125 {
